@@ -85,6 +85,15 @@ Init ==
     /\ ndeliv = 0
     /\ bad = {}
 
+Reset ==
+    /\ M!MemReset
+    /\ stack' = [t \in Threads |-> << IF t \in Readers THEN RFrame ELSE WFrame >>]
+    /\ todo' = [t \in Threads |-> (IF t \in Readers THEN Sections ELSE Stores) - 1]
+    /\ box' = [b \in 1..MaxBoxes |-> IF b = 1 THEN "live" ELSE "none"]
+    /\ nboxes' = 1
+    /\ ndeliv' = 0
+    /\ bad' = {}
+
 \* The frame on top of t finished its operation.
 Finish(t) ==
     IF Len(stack[t]) > 1
